@@ -127,3 +127,20 @@ def mk_fee(dec_a, dec_l):
 def tasks(tier):
     pairs = [(6, 9)] if tier == 'quick' else [(6, 9), (9, 6), (0, 18), (6, 6)]
     return [('pre_post', t_pre_post)] + [(f'fee{a}-{b}', mk_fee(a, b)) for a, b in pairs]
+
+
+
+# ---------------------------------------------------------------- shared with C04.a/b: the per-position valuation behind this property's health figures
+def t_valuation_asset(world):
+    import specs.C04 as C04
+    return C04.t_asset_value(world, 'C05.d.asset')
+
+
+def t_valuation_liab(world):
+    import specs.C04 as C04
+    return C04.t_liab_value(world, 'C05.d.liab')
+
+
+_t_val = tasks
+def tasks(tier):
+    return _t_val(tier) + [('valuation_asset', t_valuation_asset), ('valuation_liab', t_valuation_liab)]
